@@ -467,7 +467,7 @@ func genZone(rng *mrand.Rand, in input) *dohfake.Zone {
 			}
 			// a name that Unicode case folding (not DNS: RFC 4343 folds ASCII letters only) maps onto the name asked:
 			// KELVIN SIGN for k, LONG S for s. It is another name (other octets, other length) like any unrelated owner.
-			if fv := foldVariant(k.Name); fv != "" && rng.IntN(2) == 0 {
+			if fv := foldVariant(k.Name); fv != "" && legalName(fv) && rng.IntN(2) == 0 { // legalName: it must still fit into a DNS message
 				p.Before = append(p.Before, genPoisonRR(rng, fv, k.Type))
 				foldPoison.Add(1)
 			}
